@@ -288,6 +288,9 @@ def _as_base_exponent(f):
             pair = _as_base_exponent(base)
             if pair is not None:
                 base, inner = pair
+                # (x**a)**b == x**(a*b) holds for integer b only: (x**2)**0.5 is abs(x)
+                if inner != 1 and exponent._value != int(exponent._value):
+                    return None
                 return base, inner * exponent._value
         return None
     elif isinstance(f, Division):
